@@ -1019,6 +1019,9 @@ class Ref:
                     raise Unrepresentable("length-key-undefined", p["name"])
                 pos, bit = keypos[p["name"]]
                 self.enc_dobj(cx, self.dobj(p["dop"]), cx.length_keys[kid], pos, bit, False)
+                # the key belongs to this instance of the parameter list: the next item of a
+                # field determines its own length
+                del cx.length_keys[kid]
             elif p["p"] == "TABLE-KEY":
                 if p["name"] not in cx.table_keys:
                     raise Unrepresentable("table-key-undefined", p["name"])
